@@ -93,7 +93,8 @@ def run_session(col, binpath, rng, tag, scratch, n_events):
     n_air = rng.choice([0, 0, 1, 3, 10, 40])
     traffic = rng.choice(["stopped", "running"])
     opts = []
-    ft = rng.choice([None, None, 0, 1])
+    # expiry thresholds from "at once" to "never" (the largest values a u64 holds)
+    ft = rng.choice([None, None, 0, 1, 0, 1, 18446744073709551615, 9223372036854775808, 4294967296])
     if ft is not None:
         opts += ["--filter-time", str(ft)]
     for o in ["--touchscreen", "--disable-lat-long", "--disable-callsign", "--disable-icao", "--disable-heading", "--disable-track", "--limit-parsing", "--retry-tcp"]:
